@@ -9,6 +9,7 @@ differs from every genuine one was accepted" to an explicit primitive-level even
 -/
 import RtcModel.Srtp
 import RtcModel.Lemmas.SrtpSess
+import RtcModel.Lemmas.SrtpToy
 
 namespace RtcModel.Theorems.C05
 open RtcModel.Srtp RtcModel.C04 RtcModel.Generated
@@ -124,17 +125,6 @@ theorem coverage_injective (tagLen : Nat) (raw1 raw2 a t : Bytes)
     (h1 : rtpCover tagLen raw1 = some (a, t)) (h2 : rtpCover tagLen raw2 = some (a, t)) : raw1 = raw2 := by
   rw [← coverage tagLen raw1 a t h1, ← coverage tagLen raw2 a t h2]
 
-/-- RTCP (HMAC profiles): authenticated part = everything before the tag (header, payload, `E‖index`) -/
-theorem coverage_rtcp (n : Nat) (pkt : Bytes) : pkt.take (pkt.length - n) ++ pkt.drop (pkt.length - n) = pkt :=
-  List.take_append_drop _ _
-
-/-- RTCP (AEAD): AAD = first 8 bytes ‖ trailing `E‖index` word; AEAD input = everything between. -/
-theorem coverage_rtcp_aead (pkt : Bytes) (h : 12 ≤ pkt.length) :
-    pkt.take 8 ++ (pkt.take (pkt.length - 4)).drop 8 ++ pkt.drop (pkt.length - 4) = pkt := by
-  have h1 : pkt.take 8 = (pkt.take (pkt.length - 4)).take 8 := by
-    rw [List.take_take]; congr 1; omega
-  rw [h1, List.take_append_drop, List.take_append_drop]
-
 /-! ### Forgery needs a primitive-level event -/
 
 /-- what the key holder authenticated for one genuine RTP packet -/
@@ -186,6 +176,100 @@ theorem forgery_needs_collision (S : Suite) (c : Ctx) (raw : Bytes) (h : Hdr) (p
   · right
     exact ⟨hm, by rw [htag]; rfl⟩
 
+/-! #### … tied to what `protect` really authenticates -/
+
+/-- the one MAC query `SrtpContext::protect` makes for packet `p` in state `c` -/
+def genuineOf (S : Suite) (c : Ctx) (p : Pkt) : GenuineRtp :=
+  ⟨writeHdr p.hdr (p.padLen ≠ 0), cmBody S c p.hdr.seq (c.estimate p.hdr.seq) p.body, c.estimate p.hdr.seq⟩
+
+/-- every MAC query of a whole send history (a `protect` that fails on `validate` makes none) -/
+def sentBy (S : Suite) : Ctx → List Pkt → List GenuineRtp
+  | _, [] => []
+  | c, p :: ps => (if validHdr p.hdr then [genuineOf S c p] else []) ++ sentBy S (c.protectRtp S p).2 ps
+
+/-- the protected packets the history put on the wire -/
+def wiresBy (S : Suite) : Ctx → List Pkt → List Bytes
+  | _, [] => []
+  | c, p :: ps =>
+    (match (c.protectRtp S p).1 with | .ok w => [w] | .error _ => []) ++ wiresBy S (c.protectRtp S p).2 ps
+
+private theorem protectRtp_static (S : Suite) (c : Ctx) (p : Pkt) :
+    (c.protectRtp S p).2.rtp = c.rtp ∧ (c.protectRtp S p).2.profile = c.profile ∧
+    ((c.protectRtp S p).2.roc = c.roc ∨ (c.protectRtp S p).2.roc = c.estimate p.hdr.seq) := by
+  by_cases hv : validHdr p.hdr = true
+  · rw [protectRtp_eq S c p hv]
+    refine ⟨rfl, rfl, ?_⟩
+    simp only [Ctx.updated, updateRoc]
+    cases c.last with
+    | none => right; rfl
+    | some l => simp only; split
+                · right; rfl
+                · left; rfl
+  · rw [protectRtp_invalid S c p (by simpa using hv)]; exact ⟨rfl, rfl, Or.inl rfl⟩
+
+private theorem wire_keys (S : Suite) (a b : Ctx) (g : GenuineRtp) (hk : a.rtp = b.rtp) (hp : a.profile = b.profile) :
+    g.wire S a = g.wire S b := by simp [GenuineRtp.wire, rtpTag, hk, hp]
+
+/-- **genuine_of_protect**: on the HMAC profiles every packet `protect` emits is exactly
+`header ‖ ciphertext ‖ trunc(HMAC(header ‖ ciphertext ‖ ROC))` for its one MAC query — the wires of a
+send history are the `wire`s of its MAC queries, nothing else is ever authenticated. -/
+theorem genuine_of_protect (S : Suite) (ps : List Pkt) (c c0 : Ctx) (hg : c.profile ≠ .gcm)
+    (hk : c.rtp = c0.rtp) (hp : c.profile = c0.profile) :
+    wiresBy S c ps = (sentBy S c ps).map (·.wire S c0) := by
+  induction ps generalizing c with
+  | nil => rfl
+  | cons p ps ih =>
+    obtain ⟨s1, s2, _⟩ := protectRtp_static S c p
+    have ih' := ih (c.protectRtp S p).2 (by rw [s2]; exact hg) (by rw [s1]; exact hk) (by rw [s2]; exact hp)
+    simp only [wiresBy, sentBy, List.map_append, ih']
+    congr 1
+    by_cases hv : validHdr p.hdr = true
+    · rw [protectRtp_eq S c p hv]
+      simp only [hv, if_true, List.map_cons, List.map_nil]
+      rw [← wire_keys S c c0 _ hk hp]
+      simp [genuineOf, GenuineRtp.wire, rtpWireBody, hg]
+    · rw [protectRtp_invalid S c p (by simpa using hv)]
+      simp [hv]
+
+private theorem sentBy_roc_lt (S : Suite) (ps : List Pkt) (c : Ctx) (h : c.roc < 4294967296) :
+    ∀ g ∈ sentBy S c ps, g.roc < 4294967296 := by
+  induction ps generalizing c with
+  | nil => intro g hgm; simp [sentBy] at hgm
+  | cons p ps ih =>
+    intro g hgm
+    simp only [sentBy, List.mem_append] at hgm
+    rcases hgm with hgm | hgm
+    · split at hgm
+      · simp only [List.mem_singleton] at hgm; subst hgm; exact estimate_lt c _ h
+      · simp at hgm
+    · refine ih (c.protectRtp S p).2 ?_ g hgm
+      rcases (protectRtp_static S c p).2.2 with e | e <;> rw [e]
+      · exact h
+      · exact estimate_lt c _ h
+
+/-- **forged_or_sent** (HMAC profiles): a sender context `cs` protects ANY history of packets; a receive
+context with the same RTP auth key and profile accepts a datagram `raw`. Then `raw` is bit-for-bit one
+of the packets the sender put on the wire, or `raw` carries a valid truncated HMAC over a message
+that is not among the sender's MAC queries (`MacForged`) — the key holder's set is no longer a free
+parameter but exactly what `SrtpContext::protect` authenticated. -/
+theorem forged_or_sent (S : Suite) (cs cr : Ctx) (ps : List Pkt) (raw : Bytes) (h : Hdr) (p : Bool) (body : Bytes)
+    (hg : cs.profile ≠ .gcm) (hk : cr.rtp = cs.rtp) (hp : cr.profile = cs.profile)
+    (hrs : cs.roc < 2 ^ 32) (hrr : cr.roc < 2 ^ 32)
+    (hparse : parseHdr raw = .ok (h, p, body))
+    (hacc : ∃ pkt, (cr.unprotectRtp S h p body).1 = .ok pkt) :
+    raw ∈ wiresBy S cs ps ∨
+    MacForged S cr.rtp.ak cr.profile.tagLen ((sentBy S cs ps).map GenuineRtp.macInput)
+      (rtpAuthInput (writeHdr h p) (body.take (splitAt cr body)) (cr.estimate h.seq))
+      (body.drop (splitAt cr body)) := by
+  have hg' : cr.profile ≠ .gcm := by rw [hp]; exact hg
+  rcases forgery_needs_collision S cr raw h p body (sentBy S cs ps) hg' hrr
+      (fun g hgm => by simpa using sentBy_roc_lt S ps cs (by simpa using hrs) g hgm) hparse hacc with
+    ⟨g, hgm, hraw, _⟩ | hf
+  · left
+    rw [genuine_of_protect S ps cs cs hg rfl rfl, hraw, wire_keys S cr cs g hk hp]
+    exact List.mem_map.mpr ⟨g, hgm, rfl⟩
+  · right; exact hf
+
 /-- EVENT: AEAD-open succeeded on a `(nonce, AAD, ciphertext‖tag)` triple that is not among the triples
 `Q` the key holder produced with `seal`. -/
 def AeadForged (S : Suite) (k : Bytes) (Q : List (Bytes × Bytes × Bytes)) (nonce aad c : Bytes) : Prop :=
@@ -217,6 +301,51 @@ theorem forgery_needs_collision_rtcp (S : Suite) (c : Ctx) (pkt out : Bytes) (Q 
   · left; refine ⟨_, hm, ?_⟩; rw [← htag, List.take_append_drop]
   · right; exact ⟨hm, by rw [htag]; rfl⟩
 
+/-- the one MAC query `protect_rtcp` makes: (possibly encrypted) packet ‖ `E‖index` -/
+def rtcpQueryOf (S : Suite) (c : Ctx) (pkt : Bytes) : Bytes :=
+  (if pkt.length > 8 ∧ c.encrypts then rtcpCipher S c ((c.rtcpIndex + 1) % 4294967296) pkt else pkt) ++
+    be32 (c.eWord ((c.rtcpIndex + 1) % 4294967296))
+
+def rtcpSentBy (S : Suite) : Ctx → List Bytes → List Bytes
+  | _, [] => []
+  | c, pkt :: ps => rtcpQueryOf S c pkt :: rtcpSentBy S (c.protectRtcp S pkt).2 ps
+
+def rtcpWiresBy (S : Suite) : Ctx → List Bytes → List Bytes
+  | _, [] => []
+  | c, pkt :: ps =>
+    (match (c.protectRtcp S pkt).1 with | .ok w => [w] | .error _ => []) ++ rtcpWiresBy S (c.protectRtcp S pkt).2 ps
+
+/-- **genuine_of_protect** (RTCP, HMAC profiles): the wires of an SRTCP send history are exactly
+`m ‖ trunc(HMAC(m))` for its MAC queries `m` -/
+theorem genuine_of_protect_rtcp (S : Suite) (ps : List Bytes) (c c0 : Ctx) (hg : c.profile ≠ .gcm)
+    (hk : c.rtcp = c0.rtcp) (hp : c.profile = c0.profile) :
+    rtcpWiresBy S c ps = (rtcpSentBy S c ps).map (fun m => m ++ rtcpTag S c0 m) := by
+  induction ps generalizing c with
+  | nil => rfl
+  | cons pkt ps ih =>
+    have ih' := ih (c.protectRtcp S pkt).2 (by rw [protectRtcp_eq]; exact hg) (by rw [protectRtcp_eq]; exact hk)
+      (by rw [protectRtcp_eq]; exact hp)
+    simp only [rtcpWiresBy, rtcpSentBy, List.map_cons, ih']
+    rw [protectRtcp_eq]
+    have ht : ∀ m, rtcpTag S c m = rtcpTag S c0 m := by intro m; simp [rtcpTag, hk, hp]
+    simp [rtcpWire, hg, rtcpQueryOf, ht]
+
+/-- **forged_or_sent** (RTCP, HMAC profiles) -/
+theorem forged_or_sent_rtcp (S : Suite) (cs cr : Ctx) (ps : List Bytes) (pkt out : Bytes)
+    (hg : cs.profile ≠ .gcm) (hk : cr.rtcp = cs.rtcp) (hp : cr.profile = cs.profile)
+    (hacc : (cr.unprotectRtcp S pkt).1 = .ok out) :
+    pkt ∈ rtcpWiresBy S cs ps ∨
+    MacForged S cr.rtcp.ak cr.profile.rtcpTagLen (rtcpSentBy S cs ps)
+      (pkt.take (pkt.length - cr.profile.rtcpTagLen)) (pkt.drop (pkt.length - cr.profile.rtcpTagLen)) := by
+  have hg' : cr.profile ≠ .gcm := by rw [hp]; exact hg
+  rcases forgery_needs_collision_rtcp S cr pkt out (rtcpSentBy S cs ps) hg' hacc with ⟨m, hm, hpkt⟩ | hf
+  · left
+    rw [genuine_of_protect_rtcp S ps cs cs hg rfl rfl, hpkt]
+    have ht : rtcpTag S cr m = rtcpTag S cs m := by simp [rtcpTag, hk, hp]
+    rw [ht]
+    exact List.mem_map.mpr ⟨m, hm, rfl⟩
+  · right; exact hf
+
 /-- **forgery_needs_collision** (AEAD, RTCP) -/
 theorem forgery_needs_aead_forgery_rtcp (S : Suite) (c : Ctx) (pkt out : Bytes)
     (Q : List (Bytes × Bytes × Bytes)) (hg : c.profile = .gcm) (hlen : 12 ≤ pkt.length)
@@ -229,7 +358,7 @@ theorem forgery_needs_aead_forgery_rtcp (S : Suite) (c : Ctx) (pkt out : Bytes)
   intro nonce aad ct
   have hopen : (S.aeadOpen c.rtcp.ck nonce aad ct).isSome = true := unprotectRtcp_ok_open S c pkt out hg hacc
   by_cases hm : (nonce, aad, ct) ∈ Q
-  · left; exact ⟨_, hm, rfl, (coverage_rtcp_aead pkt hlen).symm⟩
+  · left; exact ⟨_, hm, rfl, (rtcp_aead_split pkt hlen).symm⟩
   · right; exact ⟨hm, hopen⟩
 
 /-! ### A rejection never disturbs the receiver -/
@@ -275,18 +404,16 @@ theorem reject_preserves_state_receive (S : Suite) (s : Sess) (now : Nat) (raw :
         rw [hr] at this; exact this
       | ok a => simp at he
 
-/-- **reject_preserves_state** (RTCP). The raw statement `reject ⇒ state' = state` is FALSE in exactly
-one field: under AEAD the SRTCP index of the addressed, already existing context may have been
-advanced before authentication. This theorem says precisely that and nothing more can differ;
-for the HMAC profiles the state is unchanged exactly. -/
+/-- **reject_preserves_state** (RTCP, raw form — holds exactly, every profile): if
+`SrtpSession::unprotect_rtcp` returns an error the session is unchanged. (Before the `fix:` commit
+"GCM unprotect_rtcp advances the SRTCP index only after authentication" this was false under AEAD:
+the index of the addressed context was advanced by a forged packet; round 1 had weakened this
+statement by a disjunct — the code was repaired instead.) -/
 theorem reject_preserves_state_rtcp (S : Suite) (s : Sess) (now : Nat) (pkt : Bytes) (e : Err)
-    (he : (s.unprotectRtcp S now pkt).1 = .error e) :
-    (s.unprotectRtcp S now pkt).2 = s ∨
-    ∃ c i, lookup s.rx (ssrcOfRtcp pkt) = some c ∧ c.profile = .gcm ∧ c.rtcpIndex < i ∧
-      (s.unprotectRtcp S now pkt).2 = { s with rx := replace s.rx (c.setIdx i) } := by
+    (he : (s.unprotectRtcp S now pkt).1 = .error e) : (s.unprotectRtcp S now pkt).2 = s := by
   unfold Sess.unprotectRtcp at he ⊢
   split
-  · left; rfl
+  · rfl
   · rename_i hlen
     rw [if_neg hlen] at he
     cases hl : lookup s.rx (ssrcOfRtcp pkt) with
@@ -295,25 +422,8 @@ theorem reject_preserves_state_rtcp (S : Suite) (s : Sess) (now : Nat) (pkt : By
       | ok a => rw [withRx_some_ok S s now _ _ hl hr] at he; simp at he
       | error e' =>
         rw [withRx_some_err S s now _ _ hl hr]
-        obtain ⟨hf, hk⟩ := unprotectRtcp_err_state S c pkt e' hr
-        by_cases hg : c.profile = .gcm
-        · have hc := eq_setIdx_of_forget _ _ hf
-          by_cases hi : (c.unprotectRtcp S pkt).2.rtcpIndex = c.rtcpIndex
-          · left
-            have : (c.unprotectRtcp S pkt).2 = c := by
-              have h2 := hc
-              rw [hi] at h2
-              rw [h2, setIdx_self]
-            simp only [this, replace_lookup_self s.rx _ c hl]
-          · right
-            refine ⟨c, (c.unprotectRtcp S pkt).2.rtcpIndex, rfl, hg, ?_, by rw [← hc]⟩
-            -- the index only ever grows
-            have hmono := unprotectRtcp_index_mono S c pkt
-            omega
-        · left
-          simp only [hk hg, replace_lookup_self s.rx _ c hl]
+        simp only [unprotectRtcp_err_keeps S c pkt e' hr, replace_lookup_self s.rx _ c hl]
     | none =>
-      left
       cases hn : Ctx.new S (ssrcOfRtcp pkt) s.profile s.rxMk s.rxMs now with
       | error e' => rw [withRx_none_newerr S s now _ _ hl hn]
       | ok c =>
@@ -321,52 +431,44 @@ theorem reject_preserves_state_rtcp (S : Suite) (s : Sess) (now : Nat) (pkt : By
         | error e' => rw [withRx_none_err S s now _ _ hl hn hr]
         | ok a => rw [withRx_none_ok S s now _ _ hl hn hr] at he; simp at he
 
+/-- the same at the `SrtpContext` API (which is public too): a failed `unprotect` / `unprotect_rtcp`
+leaves the context exactly as it was -/
+theorem reject_preserves_context (S : Suite) (c : Ctx) :
+    (∀ h p body e, (c.unprotectRtp S h p body).1 = .error e → (c.unprotectRtp S h p body).2 = c) ∧
+    (∀ pkt e, (c.unprotectRtcp S pkt).1 = .error e → (c.unprotectRtcp S pkt).2 = c) :=
+  ⟨fun h p body e he => unprotectRtp_err_keeps S c h p body e he,
+   fun pkt e he => unprotectRtcp_err_keeps S c pkt e he⟩
+
 /-! ### …for every later history -/
 
-/-- sessions that differ only in SRTCP indices of receive contexts are indistinguishable, forever -/
-theorem obs_bisim (S : Suite) (ops : List Op) {s1 s2 : Sess} (h : Sess.obsEq s1 s2) :
-    run S s1 ops = run S s2 ops := by
-  induction ops generalizing s1 s2 with
-  | nil => rfl
-  | cons o os ih =>
-    obtain ⟨h1, h2⟩ := step_obsEq S h o
-    simp only [run, h1, ih h2]
-
-/-- a rejected packet leaves the session observationally where it was -/
-theorem reject_obsEq (S : Suite) (s : Sess) (o : Op) (hrej : (step S s o).1.isReject = true) :
-    Sess.obsEq (step S s o).2 s := by
+/-- one rejected operation (RTP or RTCP, parse error or authentication failure, known or unknown
+SSRC, any time) leaves the whole session — both tables, every rollover counter, highest sequence
+number, SRTCP index and last-use time — exactly as it was -/
+theorem reject_preserves_state_step (S : Suite) (s : Sess) (o : Op) (hrej : (step S s o).1.isReject = true) :
+    (step S s o).2 = s := by
   cases o with
   | rtpIn now raw =>
     simp only [step] at hrej ⊢
     cases hr : (s.receiveRtp S now raw).1 with
     | ok a => rw [hr] at hrej; simp [Out.isReject] at hrej
-    | error e => rw [reject_preserves_state_receive S s now raw e hr]; exact Sess.obsEq.refl s
+    | error e => exact reject_preserves_state_receive S s now raw e hr
   | rtcpIn now pkt =>
     simp only [step] at hrej ⊢
     cases hr : (s.unprotectRtcp S now pkt).1 with
     | ok a => rw [hr] at hrej; simp [Out.isReject] at hrej
-    | error e =>
-      rcases reject_preserves_state_rtcp S s now pkt e hr with h | ⟨c, i, hl, _, _, h⟩
-      · rw [h]; exact Sess.obsEq.refl s
-      · rw [h]
-        refine ⟨rfl, rfl, rfl, rfl, rfl, rfl, ?_⟩
-        have := replace_tblEq (tblEq_refl s.rx) (c := c.setIdx i) (d := c) rfl
-        rw [replace_lookup_self s.rx _ c hl] at this
-        exact this
+    | error e => exact reject_preserves_state_rtcp S s now pkt e hr
   | rtpOut now p => simp [step, Out.isReject] at hrej
   | rtcpOut now pkt => simp [step, Out.isReject] at hrej
 
-/-- **reject_preserves_behaviour**: if the session rejects a packet (RTP or RTCP, any profile, known
-or unknown SSRC, at any time), then for EVERY later history — any interleaving of genuine and forged
-RTP/RTCP on any SSRCs, protect calls, any passage of time — every result is exactly what it would
-have been had the rejected packet never arrived. No `NoEvictionTriggered` hypothesis is needed any
-more: since the `fix:` commit a rejected packet neither inserts a context nor refreshes or evicts
-one (before it, forged SSRCs could push the table over the high-water mark and evict an idle
-genuine context together with its rollover counter). -/
+/-- **reject_preserves_behaviour**: after a rejected packet, EVERY later history — any interleaving of
+genuine and forged RTP/RTCP on any SSRCs, protect calls, any passage of time — gives exactly the
+results it would have given had the packet never arrived (in particular every genuine packet that
+would have been accepted still is). No `NoEvictionTriggered` hypothesis: since the first `fix:`
+commit of C05 a rejected packet neither inserts, refreshes nor evicts a context. -/
 theorem reject_preserves_behaviour (S : Suite) (s : Sess) (o : Op) (later : List Op)
     (hrej : (step S s o).1.isReject = true) :
-    run S (step S s o).2 later = run S s later :=
-  obs_bisim S later (reject_obsEq S s o hrej)
+    run S (step S s o).2 later = run S s later := by
+  rw [reject_preserves_state_step S s o hrej]
 
 /-- the operations of a history that were not rejected -/
 def survivors (S : Suite) (s : Sess) (ops : List Op) : List Op :=
@@ -390,23 +492,17 @@ theorem rejected_packets_are_invisible (S : Suite) (ops : List Op) (s : Sess) :
       simp only [Bool.false_eq_true, if_false, Bool.not_false, if_true, run]
       rw [← ih (step S s o).2]; rfl
 
-/-- the table cannot be grown, refreshed or aged by rejected traffic: same contexts, same last-use
-times, same size — so forged packets can never contribute to an eviction. -/
-theorem reject_keeps_table_shape (S : Suite) (s : Sess) (o : Op) (hrej : (step S s o).1.isReject = true) :
-    (step S s o).2.rx.map (fun c => (c.ssrc, c.roc, c.last, c.lastUsed)) =
-      s.rx.map (fun c => (c.ssrc, c.roc, c.last, c.lastUsed)) ∧ (step S s o).2.tx = s.tx := by
-  have h := reject_obsEq S s o hrej
-  refine ⟨?_, h.tx⟩
-  have := congrArg (List.map (fun c : Ctx => (c.ssrc, c.roc, c.last, c.lastUsed))) h.rx
-  simpa [List.map_map, Function.comp_def, Ctx.forget] using this
+/-! ### non-vacuity: an authentication failure on an existing context at ROC 1 -/
 
-/-! ### non-vacuity -/
+/-- a receive context at ROC 1 (highest sequence number 200) -/
+def ctxRoc1 : Ctx := ⟨7, .cm80, ⟨[], [], []⟩, ⟨[], [], []⟩, 1, some 200, 5, 0⟩
+def sessRoc1 : Sess := { Sess.new .cm80 [] [] [] [] with rx := [ctxRoc1] }
+/-- a 12-byte header (SSRC 7, sequence 201) followed by ten zero bytes as "tag" -/
+def forgedPkt : Bytes := [0x80, 96, 0, 201, 0, 0, 0, 0, 0, 0, 0, 7] ++ List.replicate 10 0
 
-/-- a forged packet for an unknown SSRC is rejected (authentication fails for a suite whose MAC
-never outputs the attacker's tag) and then a history continues — hypotheses are satisfiable -/
-example : Sess.obsEq (Sess.new .cm80 [] [] [] []) (Sess.new .cm80 [] [] [] []) := Sess.obsEq.refl _
-
-example (S : Suite) (s : Sess) : (step S s (.rtpIn 0 [])).1.isReject = true := by
-  simp [step, Sess.receiveRtp, parseHdr, Out.isReject]
+example : (step toySuite sessRoc1 (.rtpIn 99 forgedPkt)).1.isReject = true ∧
+    (step toySuite sessRoc1 (.rtpIn 99 forgedPkt)).2 = sessRoc1 := by
+  have h : (step toySuite sessRoc1 (.rtpIn 99 forgedPkt)).1.isReject = true := by decide
+  exact ⟨h, reject_preserves_state_step toySuite sessRoc1 _ h⟩
 
 end RtcModel.Theorems.C05
